@@ -407,6 +407,25 @@ def handle (name : String) (args : List String) : String :=
         | _, _, _, _ => "bad-args"
       | _ => "bad-args"
     | [] => "bad-args"
+  | "self.pairs" =>
+    -- self.pairs <closed 0|1> <n> | i1 i2 t1 u1 t2 u2 ... | i1 i2 ... : second loop of getSelfIntersections
+    match splitTok "|" args with
+    | [cl, n] :: groups =>
+      match n.toNat? with
+      | some n =>
+        let parsed : Option (List (Nat × Nat × List (ℚ × ℚ))) := groups.mapM fun g =>
+          match g with
+          | a :: b :: rest =>
+            match a.toNat?, b.toNat?, parsePairs2 rest with
+            | some a, some b, some l => some (a, b, l)
+            | _, _, _ => none
+          | _ => none
+        match parsed with
+        | some hits =>
+          "ok " ++ showRats ((CC.selfPairs (cl == "1") n hits).flatMap fun q => [(q.1 : ℚ), (q.2.1 : ℚ), q.2.2.1, q.2.2.2])
+        | none => "bad-args"
+      | none => "bad-args"
+    | _ => "bad-args"
   | "cc.run" =>
     -- cc.run <fuel> <curve a> <curve b>: `_curve_curve_intersections_t` on the whole curves
     match args with
